@@ -2,7 +2,7 @@
     This file only pins statements: every theorem restates a lemma of proofs/ verbatim and is closed by it. *)
 From CacheD Require Import Base Sketch Model Window Micro.
 From CacheD.proofs Require Import Defs ApiProofs HistoryProofs StatsProofs.
-From CacheD.proofs Require Import MicroProofs MicroBal MicroAll MicroProv.
+From CacheD.proofs Require Import MicroProofs MicroBal MicroAll MicroProv MicroPut.
 
 (** (C02, provenance, for every micro schedule - no restriction on what overtakes what): whatever is stored under
    a key at any state was written for that key by a put or a put_or_update that had begun by then; reads return stored
@@ -12,6 +12,30 @@ Theorem C02_micro_store_value_provenance :
   alookup k (store (mbase (mrun cfg evs))) = Some e -> Exists (mwrites k (e_val e)) evs.
 Proof. exact micro_store_value_provenance. Qed.
 Print Assumptions C02_micro_store_value_provenance.
+
+(** (C09 / C02, any state): a split read (get) decides at its `Store::get` step, on the state of that instant:
+   absent (and the call ends) exactly when the key is not stored, soft-deleted or past its expiry by the clock of that
+   instant; otherwise the value of the live entry is fixed there (kept with the stopped caller) *)
+Theorem C02_micro_read_decides_at_lookup :
+  forall cfg ms tid k idxs,
+  alookup tid (cps ms) = Some (PEntered (RGet k)) ->
+  (lookup_alive k (mbase ms) = None ->
+     snd (mstepc cfg ms tid idxs) = [5] /\ alookup tid (cps (fst (mstepc cfg ms tid idxs))) = None) /\
+  (forall e, lookup_alive k (mbase ms) = Some e ->
+     snd (mstepc cfg ms tid idxs) = [9] /\
+     alookup tid (cps (fst (mstepc cfg ms tid idxs))) =
+       Some (PHit (key_hash (c_hash cfg) k) (if e_val e =? -1 then [5] else [5; e_val e]))).
+Proof. exact micro_read_decides_at_lookup. Qed.
+Print Assumptions C02_micro_read_decides_at_lookup.
+
+(** (C09 / C02, any state): ... and the later `Pool::add` step of that caller returns exactly the value fixed at
+   the lookup, whatever the state has become in between (an overwrite, a delete, an expiry, a sweep, a shutdown) *)
+Theorem C02_micro_hit_returns_lookup_value :
+  forall cfg ms tid h obs i s',
+  alookup tid (cps ms) = Some (PHit h obs) -> pool_add cfg i h (mbase ms) = Some s' ->
+  snd (mstepc cfg ms tid [i]) = obs /\ alookup tid (cps (fst (mstepc cfg ms tid [i]))) = None.
+Proof. exact micro_hit_returns_lookup_value. Qed.
+Print Assumptions C02_micro_hit_returns_lookup_value.
 
 (** the micro steps of one call, executed back to back by a caller that is not inside another call, are the
    atomic call of Model.v: same state, same observation, and the caller is out of every window again *)
